@@ -69,6 +69,8 @@ def plan(tier, seed):
                 if (pp and tp > pp) or (pq and tq > pq):
                     continue
                 jobs.append(("trio", 3, pp, pq, tp, tq, 0, 10 ** 6))
+    for k in range(6):
+        jobs.append(("pederr", k, 3000))
     jobs.append(("gamete", 0, 1000))
     jobs.append(("walker", 0, 1000))
     jobs.sort(key=lambda j: -j[-1])
@@ -76,7 +78,7 @@ def plan(tier, seed):
 
 
 def run_job(job):
-    return {"trio": job_trio, "gamete": job_gamete, "walker": job_walker}[job[0]](job)
+    return {"trio": job_trio, "gamete": job_gamete, "walker": job_walker, "pederr": job_pederr}[job[0]](job)
 
 
 def job_trio(job):
@@ -215,4 +217,55 @@ def job_walker(job):
                     r.violation("dosage-walker|constraint=%s|tau=%d" % (cons, tau), "walker visited %r, expected each of %r once" % (seen[:12], want[:12]), payload)
                 r.outcome((cons, tau, len(seen)))
     r.sample({"walker": True, "constraint": (2, 1, 2), "tau": 3})
+    return r
+
+
+def job_pederr(job):
+    """PEDERR as the trace class computes it: for every trio / duo (mixed ploidy, padded storage) the incongruence of a one-step
+    trace is 0 exactly when the zero-error inheritance probability is positive"""
+    from mchap.pedigree.classes import PedigreeAllelesMultiTrace
+    from mchap.pedigree.prior import trio_log_pmf
+
+    _, k, _ = job
+    r = Result()
+    payload = {"kind": "job", "job": job}
+    shapes_ = [((4, 2, 3), (2, 1), (0.0, 0.0)), ((2, 4, 3), (1, 2), (0.0, 0.0)), ((2, 2, 2), (1, 1), (0.0, 0.0)), ((4, 4, 4), (2, 2), (0.2, 0.0)),
+               ((4, 2, 3), (2, 1), (0.3, 0.0)), ((2, 4, 4), (1, 3), (0.0, 0.0))]
+    (pl_p, pl_q, pl_c), (tau_p, tau_q), (lam_p, lam_q) = shapes_[k]
+    alleles = [0, 1, 2, 3] if max(pl_p, pl_q) <= 2 else [0, 1, 2]
+    fr = [1.0 / len(alleles)] * len(alleles)
+    logf = np.log(np.array(fr))
+    maxp = max(pl_p, pl_q, pl_c)
+    sc = scratch(maxp)
+    ploidy = np.array([pl_p, pl_q, pl_c])
+    tau = np.array([[pl_p // 2, pl_p - pl_p // 2], [pl_q // 2, pl_q - pl_q // 2], [tau_p, tau_q]])
+    lam = np.array([[0.0, 0.0], [0.0, 0.0], [lam_p, lam_q]])
+
+    def pad(g):
+        return np.array(list(g) + [-1] * (maxp - len(g)), np.int64)
+
+    for layout, parents in (("trio", [(-1, -1), (-1, -1), (0, 1)]), ("duo-p", [(-1, -1), (-1, -1), (0, -1)]), ("duo-q", [(-1, -1), (-1, -1), (-1, 1)])):
+        par = np.array(parents)
+        for P in ref.multisets(alleles, pl_p):
+            for Q in ref.multisets(alleles, pl_q):
+                for C in ref.multisets(alleles, pl_c):
+                    trace = np.full((1, 1, 3, maxp), -1, np.int16)
+                    trace[0, 0, 0, :pl_p] = P
+                    trace[0, 0, 1, :pl_q] = Q
+                    trace[0, 0, 2, :pl_c] = C
+                    got = PedigreeAllelesMultiTrace(trace, n_allele=len(alleles)).incongruence(ploidy, par, tau, lam)
+                    pp, qq = par[2]
+                    lp = trio_log_pmf(pad(C), pad(P) if pp >= 0 else pad(()), pad(Q) if qq >= 0 else pad(()), pl_p if pp >= 0 else 0, pl_q if qq >= 0 else 0,
+                                      tau_p, tau_q, lam_p, lam_q, 0.0 if pp >= 0 else 1.0, 0.0 if qq >= 0 else 1.0, logf, *sc)
+                    want = ref.trio_pmf(P if pp >= 0 else None, Q if qq >= 0 else None, tau_p, tau_q, lam_p, lam_q, 0.0, 0.0, alleles, {a: fr[a] for a in alleles}).get(C, 0.0)
+                    r.evaluations += 1
+                    r.nontrivial += 1
+                    valid = want > 0
+                    if (lp > -math.inf) != valid:
+                        r.violation("pederr-pmf|%s|ploidy=%s" % (layout, (pl_p, pl_q, pl_c)), "zero-error probability %g, reference %g for %r x %r -> %r" % (math.exp(lp) if lp > -math.inf else 0.0, want, P, Q, C), payload)
+                    if got[0] != 0 or got[1] != 0 or (got[2] == 0) != valid:
+                        r.violation("pederr|%s|ploidy=%s|tau=%s|lambda=%s" % (layout, (pl_p, pl_q, pl_c), (tau_p, tau_q), (lam_p, lam_q)),
+                                    "PEDERR %r for parents %r x %r and progeny %r; the zero-error inheritance probability is %g (valid=%s)" % (got.tolist(), P, Q, C, want, valid), payload)
+                    r.outcome((layout, valid))
+    r.sample({"pederr": "one-step traces", "ploidy": (pl_p, pl_q, pl_c), "tau": (tau_p, tau_q), "lambda": (lam_p, lam_q)})
     return r
